@@ -122,7 +122,7 @@ def _verify1(cfg, nsub, bpf, pin, seed, stem, V, res, objs, rec, template=False)
         return None, None
     if any(k % (M * P) for k, _, _ in src.log):
         V('request_granularity', '%s: requests %s' % (tag, [k for k, _, _ in src.log]))
-    win = vharness.ref_window(M, P, 'hamming')
+    win = vharness.ref_window(M, P, cfg.get('window', 'hamming'))
     for a in range(na):
         for p in range(npol):
             stream = np.concatenate([arr[a][p] for _, _, arr in src.log])
@@ -288,6 +288,11 @@ def configs(tier):
                                                             source=source, bits=bits, digitize=dig, asc=asc,
                                                             bpfs=([1, 2, 3] if nb >= 3 else [1, 2]) if T else [1, 2],
                                                             delays={'ant': None, 'arr2': [0, 1], 'arr3': [0, 2, 1]}[source]))
+    # (sub-boxes) another window function (the template form must carry it to every stream), and sky content 2^-40 times
+    # smaller (nothing in the pipeline is tied to an absolute voltage scale: the recorded bytes do not depend on it)
+    sub = [c for c in out if c['M'] == out[0]['M'] and c['P'] == 8 and c['r'] in (2, 3) and c['nb'] == 2 and c['bits'] == 8]
+    out += [dict(c, window=w) for c in sub for w in ('hann', 'boxcar')]
+    out += [dict(c, noise=2.0 ** -40, level=0.6 * 2.0 ** -40) for c in sub]
     return out
 
 
